@@ -19,6 +19,12 @@
 #include <BayesFilters/BootstrapCorrection.h>
 #include <BayesFilters/DrawParticles.h>
 #include <BayesFilters/directional_statistics.h>
+#include <BayesFilters/InitSurveillanceAreaGrid.h>
+#include <BayesFilters/ResamplingWithPrior.h>
+#include <BayesFilters/GPFCorrection.h>
+#include <BayesFilters/KFCorrection.h>
+#include <BayesFilters/UKFCorrection.h>
+#include <BayesFilters/LTIMeasurementModel.h>
 #include <BayesFilters/utils.h>
 #include <atomic>
 #include <chrono>
@@ -83,6 +89,12 @@ static int c11_gm_resize_noise() {
     bool ok3 = (a.dim == a.dim_linear + a.dim_noise) && a.dim_noise == 3;
     std::printf("C11: augment(1) then augment(2): dim=%zu lin=%zu noise=%zu\n", a.dim, a.dim_linear, a.dim_noise);
     return (ok1 && ok2 && ok3) ? 0 : 1;
+}
+
+static int c11_concat_components() {
+    ParticleSet a(2, 2), b(3, 2); a += b;
+    std::printf("C11: ParticleSet(2,2) += ParticleSet(3,2): components=%zu state cols=%ld mean cols=%ld cov cols=%ld weights=%ld\n", a.components, (long)a.state().cols(), (long)a.mean().cols(), (long)a.covariance().cols(), (long)a.weight().size());
+    return (a.components == 5 && a.state().cols() == 5) ? 0 : 1;
 }
 
 static int c14_wna_noise() {
@@ -202,12 +214,120 @@ static int c06_sis_layout() {
     return (c.dim_linear == 1 && c.dim_circular == 1) ? 0 : 1;
 }
 
+static int c14_grid_state_rows() {
+    InitSurveillanceAreaGrid g(10.0, 10.0, 2, 2);
+    ParticleSet p(4, 2);                       // 2-row state (1-D white-noise-acceleration model)
+    bool r = g.initialize(p);                  // comma-initialiser assertion before the fix
+    std::printf("C14/C16: grid initialiser on a 2-row state returned %d\n", (int)r);
+    return r ? 1 : 0;
+}
+
+static int c14_sim_zero_length() {
+    std::unique_ptr<StateModel> sm(new WhiteNoiseAcceleration(WhiteNoiseAcceleration::Dim::OneD, 1.0, 1.0, 1));
+    SimulatedStateModel s(std::move(sm), VectorXd::Zero(2), 0);     // target_.col(0) on a 0-column matrix before the fix
+    bool r = s.bufferData();
+    std::printf("C14: zero-length trajectory: bufferData returned %d\n", (int)r);
+    return r ? 1 : 0;
+}
+
+struct ZeroInit : public ParticleSetInitialization { bool initialize(ParticleSet& p) override { p.state().setZero(); p.mean().setZero(); return true; } };
+
+static int c14_rwp_quaternion() {
+    ParticleSet cor(4, 1, 1, true), res(4, 1, 1, true); VectorXi par(4);
+    cor.weight().setConstant(-std::log(4.0));
+    ResamplingWithPrior r(std::unique_ptr<ParticleSetInitialization>(new ZeroInit), 0.5, 1);
+    r.resample(cor, res, par);                 // size-mismatch assertion before the fix (temporaries built without use_quaternion)
+    std::printf("C14: prior-mixing resampling of a quaternion particle set: result dim=%zu components=%zu\n", res.dim, res.components);
+    return (res.dim == 5 && res.components == 4) ? 0 : 1;
+}
+
+struct OkLik : public LikelihoodModel { std::pair<bool, VectorXd> likelihood(const MeasurementModel&, const Ref<const MatrixXd>& s) override { return std::make_pair(true, VectorXd::Ones(s.cols())); } };
+struct HM2 : public LTIMeasurementModel {
+    HM2() : LTIMeasurementModel(MatrixXd::Identity(2, 2), MatrixXd::Identity(2, 2)) {}
+    bool freeze(const Data&) override { return true; }
+    std::pair<bool, Data> measure(const Data&) const override { MatrixXd y = MatrixXd::Zero(2, 1); return std::make_pair(true, Data(y)); }
+};
+struct TProb : public LTIStateModel {
+    TProb() : LTIStateModel(MatrixXd::Identity(2, 2), MatrixXd::Identity(2, 2)) {}
+    VectorDescription getStateDescription() override { return VectorDescription(2); }
+    VectorXd getTransitionProbability(const Ref<const MatrixXd>&, const Ref<const MatrixXd>& c) override { return VectorXd::Ones(c.cols()); }
+};
+
+static int c14_gpf_moved_closure() {
+    std::unique_ptr<GPFCorrection> a(new GPFCorrection(std::unique_ptr<LikelihoodModel>(new OkLik), std::unique_ptr<GaussianCorrection>(new KFCorrection(std::unique_ptr<LinearMeasurementModel>(new HM2))), std::unique_ptr<StateModel>(new TProb), 1));
+    GPFCorrection b(std::move(*a));            // UBSan: load of an uninitialised bool before the fix
+    a.reset();                                 // the moved std::function still captured the old object's this
+    ParticleSet pred(2, 2), corr(2, 2);
+    pred.covariance(0) = MatrixXd::Identity(2, 2); pred.covariance(1) = MatrixXd::Identity(2, 2);
+    pred.weight().setConstant(-std::log(2.0));
+    b.correct(pred, corr);                     // ASan heap-use-after-free in sampleFromProposal before the fix
+    std::printf("C14: moved GPFCorrection corrected a particle set after its source was destroyed\n");
+    return 0;
+}
+
+struct Exo2 : public ExogenousModel {
+    void propagate(const Ref<const MatrixXd>& cur, Ref<MatrixXd> prop) override { prop = MatrixXd::Ones(cur.rows(), cur.cols()); }
+    bool setProperty(const std::string&) override { return false; }
+    VectorDescription getStateDescription() const override { return VectorDescription(2); }
+};
+
+static int c13_drawparticles_exogenous() {
+    DrawParticles d(std::unique_ptr<StateModel>(new WhiteNoiseAcceleration(WhiteNoiseAcceleration::Dim::OneD, 1.0, 1.0, 1)), std::unique_ptr<ExogenousModel>(new Exo2));
+    bool has = d.getStateModel().have_exogenous_model();
+    int bad = has ? 0 : 1;
+    try { bool r = d.skip("exogenous", true); if (!r) bad = 1; } catch (const std::exception&) { std::printf("C13: DrawParticles(state_model, exogenous_model).skip(\"exogenous\", true) threw\n"); bad = 1; }
+    std::printf("C13: DrawParticles built with an exogenous model: state model has it attached = %d\n", (int)has);
+    return bad;
+}
+
+static int c19_one_column() {
+    MatrixXd a(1, 1); a << 7.0; VectorXd w(1); w << 1.0;
+    VectorXd m = directional_statistics::directional_mean(a, w);
+    std::printf("C19/C17: directional_mean of the single sample 7.0 = %.16g (argument of the phasor: 0.7168146928204135)\n", m(0));
+    return std::abs(m(0) - 0.7168146928204135) < 1e-12 ? 0 : 1;
+}
+
+static int c18_log_cutoff() {
+    Vector3d r(2.000000001e-4, 0.0, 0.0);
+    MatrixXd q = utils::rotation_vector_to_quaternion(r);
+    MatrixXd back = utils::quaternion_to_rotation_vector(q);
+    double err = (back.col(0) - r).norm();
+    std::printf("C18: log(exp(r)) for |r| = 2.000000001e-4: error %.12g rad (bound 2e-4)\n", err);
+    return err <= 2e-4 ? 0 : 1;
+}
+
+struct ScriptMeas : public AdditiveMeasurementModel {
+    bool fail_pred = false;
+    bool freeze(const Data&) override { return true; }
+    std::pair<bool, Data> measure(const Data&) const override { MatrixXd y = MatrixXd::Zero(2, 1); return std::make_pair(true, Data(y)); }
+    std::pair<bool, Data> predictedMeasure(const Ref<const MatrixXd>& x) const override { if (fail_pred) return std::make_pair(false, Data()); MatrixXd y = x; return std::make_pair(true, Data(y)); }
+    std::pair<bool, Data> innovation(const Data& p, const Data& m) const override { MatrixXd i = -(any::any_cast<MatrixXd>(p).colwise() - any::any_cast<MatrixXd>(m).col(0)); return std::make_pair(true, Data(i)); }
+    std::pair<bool, MatrixXd> getNoiseCovarianceMatrix() const override { return std::make_pair(true, MatrixXd::Identity(2, 2)); }
+    VectorDescription getInputDescription() const override { return VectorDescription(2, 0, 2); }
+    VectorDescription getMeasurementDescription() const override { return VectorDescription(2); }
+};
+
+static int c14_ukf_stale_likelihood() {
+    ScriptMeas* sm = new ScriptMeas;
+    UKFCorrection c(std::unique_ptr<AdditiveMeasurementModel>(sm), 1.0, 2.0, 0.0);
+    GaussianMixture pred(3, 2), corr(3, 2);
+    for (int i = 0; i < 3; ++i) pred.covariance(i) = MatrixXd::Identity(2, 2);
+    c.correct(pred, corr);                     // succeeds: innovations_ is 2x3
+    sm->fail_pred = true;
+    c.correct(pred, corr);                     // fails after predicted_meas_ was overwritten with a default 1x1 mixture
+    bool valid; VectorXd lik;
+    std::tie(valid, lik) = c.getLikelihood();  // Eigen size assertion / out-of-bounds read before the fix
+    std::printf("C14: UKFCorrection::getLikelihood after a failed correction that follows a successful one: valid=%d\n", (int)valid);
+    return valid ? 1 : 0;
+}
+
 int main(int argc, char** argv) {
     std::string w = argc > 1 ? argv[1] : "";
     if (w == "c09_teardown_hang") return c09_teardown_hang();
     if (w == "c13_skip_throws") return c13_skip_throws();
     if (w == "c11_particleset_resize") return c11_particleset_resize();
     if (w == "c11_gm_resize_noise") return c11_gm_resize_noise();
+    if (w == "c11_concat_components") return c11_concat_components();
     if (w == "c14_wna_noise") return c14_wna_noise();
     if (w == "c14_linearmodel_noise") return c14_linearmodel_noise();
     if (w == "c16_transition") return c16_transition();
@@ -215,5 +335,13 @@ int main(int argc, char** argv) {
     if (w == "c17_history_shrink") return c17_history_shrink();
     if (w == "c12_ut_additive_failure") return c12_ut_additive_failure();
     if (w == "c06_sis_layout") return c06_sis_layout();
+    if (w == "c13_drawparticles_exogenous") return c13_drawparticles_exogenous();
+    if (w == "c19_one_column") return c19_one_column();
+    if (w == "c18_log_cutoff") return c18_log_cutoff();
+    if (w == "c14_ukf_stale_likelihood") return c14_ukf_stale_likelihood();
+    if (w == "c14_grid_state_rows") return c14_grid_state_rows();
+    if (w == "c14_sim_zero_length") return c14_sim_zero_length();
+    if (w == "c14_rwp_quaternion") return c14_rwp_quaternion();
+    if (w == "c14_gpf_moved_closure") return c14_gpf_moved_closure();
     std::printf("unknown\n"); return 2;
 }
